@@ -30,7 +30,7 @@ var genRules = map[string]string{
 	"C06": "unmarshal: random value trees encoded by the reference, then rewritten into other legal encodings (fields reordered, packed <-> unpacked, packed runs split, singleton packed runs, singular scalars twice, singular messages split in two, map entries reversed / with key or value omitted / key twice / unknown field inside, unknown fields of all wire types interleaved, recursively in nested messages); destination pre-filled with an unrelated message; result read back through the runtime's own encoder and compared with dynamicpb's decode of the same bytes",
 	"C07": "unknown: the C06 encodings with unknown fields (numbers 900 … 2^29-1, four wire types) at random positions; after generated Unmarshal then Marshal the unknown bytes must be re-emitted byte for byte and counted by Size()",
 	"C08": "unmarshal: the C06 encodings damaged by truncation, bit flips, continuation-bit inflation, junk, huge declared lengths, dangling continuation bytes: no panic, allocation sampled with runtime.MemStats, equality whenever both the generated code and dynamicpb accept",
-	"C09": "histories: per message type, 4-12 steps drawn from reflective field mutation (grow / shrink / set / clear), Size, the runtime's own Size+Marshal, Unmarshal of another message, Reset, Clone, and Marshal — each Marshal compared with marshaling a fresh deep copy (obtained through the runtime's encoder) of the current contents",
+	"C09": "histories: per message type, 4-12 steps drawn from reflective field mutation (grow / shrink / set / clear), Size, the runtime's own Size+Marshal, Unmarshal of another message (half of them carrying an unknown field), Reset, Clone, and Marshal — each of these through the generated method, through csproto (Size, Marshal, Unmarshal, Reset, Clone) or through csproto.GrpcCodec — each Marshal compared with marshaling a fresh deep copy (obtained through the runtime's encoder) of the current contents, and every earlier Marshal result re-read after the later calls; helpers: messages whose optional fields are assigned through csproto.Bool/Int32/…/String must not share memory",
 	"C10": "clobber: safe-option variants only; after generated Unmarshal the input buffer is overwritten with 0xff and the message is read back through the runtime's encoder before and after",
 	"C12": "extensions: for every generated message type with extension ranges (scalar kinds, enum, string/bytes, message) and each of gogo / golang v1 API / google v2: random histories of Set/Clear/ClearAll with a full observation (Has, Get, Range, ExtensionFieldNumber, marshaled bytes) after every step, the same history driven through the owning runtime's own API on a twin message, and an abstract map as the specification; descriptors of the other runtime family must be refused without modifying the message",
 	"C17": "required: proto2 types with required fields (top level, nested, repeated element, map value, oneof member); random subsets left unset; Marshal must fail exactly when dynamicpb's CheckInitialized fails; Unmarshal must fail exactly when the reference reports a missing required field; the empty message and the empty input included",
